@@ -8,6 +8,14 @@ import PetgraphModel.Proofs.C10Ksp
 import PetgraphModel.Proofs.C10KspOne
 import PetgraphModel.Proofs.C10KspFull
 import PetgraphModel.Proofs.C10KspTerm
+import PetgraphModel.Proofs.C10W4KspGoal
+import PetgraphModel.Proofs.C10W4Oracle
+import PetgraphModel.Proofs.C10W4Complete
+import PetgraphModel.Proofs.C10W4RefDist
+import PetgraphModel.Proofs.C10W4Bounded
+import PetgraphModel.Proofs.C10W4Driver
+import PetgraphModel.Proofs.C10W4KspFits
+import PetgraphModel.Proofs.C10W4AstarFits
 /-
 C10 — `dijkstra`, `astar`, `k_shortest_path` return true shortest costs and real paths; `MinScored`
 is the reversed order with NaN last.
@@ -22,6 +30,10 @@ Part 3: the astar model (no panic, real paths, `None` iff unreachable, terminati
 admissible heuristic) and the k_shortest_path model (no out-of-bounds, real walk costs; exactly the
 k-th cheapest walk costs for every `k`; `k = 1` = dijkstra).
 Part 4: `MinScored::cmp` (mirrored branch by branch).
+Part 5 (wave 4): `k_shortest_path` WITH a goal is exact; the judges are complete (they decide their
+clause sets) and their oracles total; bounded cost types; the run-time checks of the hypotheses; and
+the driver-level theorems: every theorem instantiated once for the concrete heap discipline `popMin`,
+the overflow-checked addition and the Boolean checks the driver evaluates on every case it judges.
 -/
 namespace PetgraphModel.C10T
 open PetgraphModel PetgraphModel.MGraph PetgraphModel.Oracle PetgraphModel.C10 PetgraphModel.C10P PetgraphModel.SP
@@ -273,7 +285,7 @@ theorem C10_minscored_scores : FloatLike Score.eq Score.lt Score.isNan ∧ ∀ a
 example : scoreCmp .nan (.fin 3) = .less ∧ scoreCmp (.fin 1) (.fin 3) = .greater ∧ scoreCmp .nan .nan = .equal := by
   decide
 
-/-! ## the hypotheses are satisfiable: a concrete non-trivial view -/
+/-! ## a concrete non-trivial view (used by the non-vacuity examples) -/
 
 /-- a directed view on 4 nodes: 0→1 (2), 0→2 (0), 2→1 (1), 1→2 (0) — a zero-cost arc closing a
 cycle —, a zero-cost loop 2→2, node 3 isolated; `to_index` shifted by a vacancy at position 0 -/
@@ -284,7 +296,340 @@ def exView : View :=
     out := [(0, [(2, 1), (1, 0)]), (1, [(2, 3)]), (2, [(2, 4), (1, 2)]), (3, [])],
     inn := [] }
 
+/-! ## Part 5 — wave 4 -/
+
+/-! ### `k_shortest_path` with a goal -/
+
+/-- **k_shortest_path, every `k ≥ 1`, ANY goal** (model level), for every min-`pop`.  Hypotheses as in
+`C10_kshortest`.  Whatever map the loop returns:
+* EVERY entry is the cost of the k-th cheapest walk to its node (entries are recorded only at a k-th
+  pop, so the entries of the nodes other than the goal are exact too, not merely costs of real walks);
+* without goal the map is complete (`C10_kshortest`);
+* with goal `t`: `t` has an entry iff it has `k` walks, and then the entry is their k-th cost (the loop
+  stops at the goal's k-th pop); every node whose k-th cheapest walk is strictly cheaper than the
+  goal's — every node with `k` walks when the goal has fewer — has its entry. -/
+theorem C10_kshortest_goal (pop : Pop) (hp : IsMinPop pop) (v : View) (hvm : ViewArcsM v) (hw : NonNeg v.g)
+    (s k : Nat) (hk : 1 ≤ k) (hix : IxOk v s) (hinj : IxInj v s) (goal : Option Nat) (m : List (Nat × Int))
+    (h : kShortestPath pop v s goal k = .done m) :
+    (∀ x c, amGet m x = some c → KthCost v.g s x k c) ∧
+    (goal = none → ∀ x c, KthCost v.g s x k c → amGet m x = some c) ∧
+    (∀ t, goal = some t →
+      (∀ c, amGet m t = some c ↔ KthCost v.g s t k c) ∧
+      (∀ x c, KthCost v.g s x k c → (∀ ct, KthCost v.g s t k ct → c < ct) → amGet m x = some c)) := by
+  have K := ksp_goal_spec hp hvm hw s k hk hix hinj goal m h
+  exact ⟨K.exact, K.all, fun t ht => ⟨K.goalEntry t ht, K.closer t ht⟩⟩
+
+/-- non-vacuity: a goal-directed run that stops early (node 1, the farthest, has no entry) -/
+example : kShortestPath popMin exView 0 (some 2) 2 = .done [(2, 0)] := by decide
+
+/-! ### the judges are complete -/
+
+/-- **the no-goal dijkstra judge decides its clause set**: accepted iff the map has distinct keys, holds
+exactly the pairs (node, shortest-walk cost) and its key set is the reachable set. -/
+theorem C10_judge_dijkstra_all_iff (g : MGraph) (s : Nat) (m : List (Nat × Int)) :
+    okDijAll g s m = true ↔
+      (m.map (·.1)).Nodup ∧ (∀ v y, (v, y) ∈ m ↔ IsShortest g s v y) ∧ (∀ v, (∃ y, (v, y) ∈ m) ↔ Reach g s v) :=
+  ⟨dijAll_sound g s m, fun ⟨h1, h2, h3⟩ => dijAll_complete g s m h1 h2 h3⟩
+
+/-- the reference labelling of the goal-directed judges is always certified: for non-negative weights
+and arcs between nodes (both decided by `viewOkB`) `certDist` never answers `none`. -/
+theorem C10_reference_total (g : MGraph) (hw : NonNeg g) (hin : ArcsIn g) (s : Nat) : ∃ d, certDist g s = some d :=
+  certDist_total hw hin s
+
+/-- **the goal-directed dijkstra judge decides its clause set** (non-negative weights, arcs between
+nodes). -/
+theorem C10_judge_dijkstra_goal_iff (g : MGraph) (hw : NonNeg g) (hin : ArcsIn g) (s t : Nat) (m : List (Nat × Int)) :
+    okDijGoal g s t m = true ↔
+      (m.map (·.1)).Nodup ∧
+      (∀ y, (t, y) ∈ m ↔ IsShortest g s t y) ∧
+      ((∀ y, (t, y) ∉ m) ↔ ¬ Reach g s t) ∧
+      (∀ v c, (v, c) ∈ m → ∃ y, IsShortest g s v y ∧ y ≤ c) ∧
+      (∀ v y, IsShortest g s v y → (∀ yt, IsShortest g s t yt → y < yt) → (v, y) ∈ m) := by
+  constructor
+  · exact dijGoal_sound g s t m
+  · rintro ⟨h1, h2, _, h4, h5⟩
+    obtain ⟨d, hd⟩ := certDist_total hw hin s
+    exact dijGoal_complete g s t m d hd h1 h2 h4 h5
+
+/-- **the astar judge decides its clause sets** (non-negative weights, arcs between nodes): `None` is
+accepted iff no goal is reachable; `Some((c, p))` iff `p` starts at `s`, follows arcs whose costs sum to
+`c`, ends at a goal, and no walk to any goal is cheaper than `c`. -/
+theorem C10_judge_astar_iff (g : MGraph) (hw : NonNeg g) (hin : ArcsIn g) (s : Nat) (goals : List Nat) :
+    (okAstar g s goals none = true ↔ ∀ t ∈ goals, ¬ Reach g s t) ∧
+    (∀ c p, okAstar g s goals (some (c, p)) = true ↔
+      p.head? = some s ∧ PathCost g p c ∧
+      (∃ t, p.getLast? = some t ∧ t ∈ goals ∧ WalkCost g s t c) ∧
+      (∀ t' ∈ goals, ∀ c', WalkCost g s t' c' → c ≤ c')) := by
+  obtain ⟨d, hd⟩ := certDist_total hw hin s
+  refine ⟨⟨astar_none_sound g s goals, astar_none_complete g s goals d hd⟩, ?_⟩
+  intro c p
+  constructor
+  · exact astar_some_sound g s goals c p
+  · rintro ⟨h1, h2, ⟨t, ht, htg, _⟩, h4⟩
+    exact astar_some_complete g s goals c p d hd h1 h2 ⟨t, ht, htg⟩ h4
+
+/-- **the k-walk oracle is total on every checked view**: with the fuel the driver gives it
+(`oracleFuel v k ≥ kspFuel v k + 1`) the dynamic programme reaches its fixed point — the no-goal run of
+the mirror model, which terminates within `kspFuel v k` pops, bounds the number of arcs after which the
+`k` cheapest walk costs no longer change.  With `C10_oracle_kth_walkF` the table is then exact. -/
+theorem C10_oracle_total (v : View) (hvm : ViewArcsM v) (hw : NonNeg v.g) (s k : Nat) (hk : 1 ≤ k)
+    (hix : IxOk v s) (hinj : IxInj v s) (fuel : Nat) (hf : kspFuel v k + 1 ≤ fuel) :
+    ∃ T, kWalksF fuel v.g s k = some T :=
+  kWalksF_total hvm hw s k hk hix hinj fuel hf
+
+/-- `C10_oracle_kth_walk` for any fuel -/
+theorem C10_oracle_kth_walkF (fuel : Nat) (g : MGraph) (s k : Nat) (T : KTable) (h : kWalksF fuel g s k = some T)
+    (hk : 1 ≤ k) (v : Nat) (c : Int) : (kRow T v)[k - 1]? = some c ↔ KthCost g s v k c :=
+  kWalksF_kth h hk v c
+
+/-- `C10_judge_k_shortest_path` for any fuel of the oracle (the driver uses `oracleFuel v k`): soundness
+of the judge for ALL graphs, all answers, all fuels. -/
+theorem C10_judge_k_shortest_pathF (fuel : Nat) (g : MGraph) (s : Nat) (goal : Option Nat) (k : Nat)
+    (m : List (Nat × Int)) (h : okKspF fuel g s goal k m = true) :
+    1 ≤ k ∧ (m.map (·.1)).Nodup ∧
+    (∀ v c, (v, c) ∈ m → KthCost g s v k c) ∧
+    (goal = none → ∀ v c, KthCost g s v k c → (v, c) ∈ m) ∧
+    (∀ t, goal = some t → ((∃ c, (t, c) ∈ m) ↔ ∃ c, KthCost g s t k c)) ∧
+    (k = 1 → goal = none → ∀ v c, (v, c) ∈ m ↔ IsShortest g s v c) :=
+  okKspF_sound fuel g s goal k m h
+
+/-- **the k_shortest_path judge decides its clause set** on every checked view, with any fuel above
+`kspFuel v k` (soundness alone holds for every graph and every fuel: `C10_judge_k_shortest_path`). -/
+theorem C10_judge_k_shortest_path_iff (v : View) (hvm : ViewArcsM v) (hw : NonNeg v.g) (s : Nat)
+    (hix : IxOk v s) (hinj : IxInj v s) (goal : Option Nat) (k : Nat) (fuel : Nat) (hf : kspFuel v k + 1 ≤ fuel)
+    (m : List (Nat × Int)) :
+    okKspF fuel v.g s goal k m = true ↔
+      1 ≤ k ∧ (m.map (·.1)).Nodup ∧
+      (∀ x c, (x, c) ∈ m → KthCost v.g s x k c) ∧
+      (goal = none → ∀ x c, KthCost v.g s x k c → (x, c) ∈ m) ∧
+      (∀ t, goal = some t → ((∃ c, (t, c) ∈ m) ↔ ∃ c, KthCost v.g s t k c)) ∧
+      (k = 1 → goal = none → ∀ x c, (x, c) ∈ m ↔ IsShortest v.g s x c) := by
+  constructor
+  · exact okKspF_sound fuel v.g s goal k m
+  · rintro ⟨hk, h2, h3, h4, h5, _⟩
+    obtain ⟨T, hT⟩ := kWalksF_total hvm hw s k hk hix hinj fuel hf
+    exact okKspF_complete fuel v.g hw s goal k m T hT hk h2 h3 h4 h5
+
+/-! ### bounded cost types -/
+
+/-- **unsigned bounded costs** (`u32`, `u64`; floats within their exact range): the run of the model whose
+every `+` is the overflow-checked addition `addB M` (defined iff `0 ≤ a + b ≤ M`; debug builds panic
+otherwise), if it does not abort, returns exactly the result of the `Int` model — to which all
+theorems above apply — and exactly the result of the run with wrapping addition `addW M` (release
+builds).  For every `pop`, view, and request.  "No computed cost exceeds `M`" is the statement that the
+`addB M` run does not abort; the driver evaluates it on every call (`C10_driver_*`). -/
+theorem C10_bounded_costs (M : Int) (pop : Pop) (v : View) (s : Nat) :
+    (∀ goal r, dijkstraG (addB M) pop v s goal = some r →
+      r = SP.dijkstra pop v s goal ∧ dijkstraG (addW M) pop v s goal = some r) ∧
+    (∀ isGoal h fuel r, astarG (addB M) pop v s isGoal h fuel = some r →
+      r = SP.astar pop v s isGoal h fuel ∧ astarG (addW M) pop v s isGoal h fuel = some r) ∧
+    (∀ goal k r, kShortestPathG (addB M) pop v s goal k = some r →
+      r = kShortestPath pop v s goal k ∧ kShortestPathG (addW M) pop v s goal k = some r) := by
+  refine ⟨?_, ?_, ?_⟩
+  · intro goal r h
+    have h1 := dijkstraG_mono (addB_le_addInt M) pop v s goal r h
+    rw [dijkstraG_int] at h1
+    exact ⟨(Option.some.inj h1).symm, dijkstraG_mono (addB_le_addW M) pop v s goal r h⟩
+  · intro isGoal hh fuel r h
+    have h1 := astarG_mono (addB_le_addInt M) pop v s isGoal hh fuel r h
+    rw [astarG_int] at h1
+    exact ⟨(Option.some.inj h1).symm, astarG_mono (addB_le_addW M) pop v s isGoal hh fuel r h⟩
+  · intro goal k r h
+    have h1 := kShortestPathG_mono (addB_le_addInt M) pop v s goal k r h
+    rw [kShortestPathG_int] at h1
+    exact ⟨(Option.some.inj h1).symm, kShortestPathG_mono (addB_le_addW M) pop v s goal k r h⟩
+
+/-- a larger type never aborts where a smaller one does not -/
+theorem C10_bounded_mono (M M' : Int) (hM : M ≤ M') (pop : Pop) (v : View) (s : Nat) (goal : Option Nat)
+    (r : Option (List (Nat × Int))) (h : dijkstraG (addB M) pop v s goal = some r) :
+    dijkstraG (addB M') pop v s goal = some r :=
+  dijkstraG_mono (addB_mono hM) pop v s goal r h
+
+/-- **"no path cost exceeds max" ⇒ the bounded run is the `Int` run** (dijkstra): if no shortest-walk cost
+from `s`, extended by one more arc, exceeds `M` (`DijFits`; every sum dijkstra computes is of this
+form), then for every min-`pop` the overflow-checked model does not abort, so it — and the wrapping
+model — return exactly what the `Int` model returns. -/
+theorem C10_bounded_dijkstra_fits (pop : Pop) (hp : IsMinPop pop) (v : View) (hv : ViewArcs v) (hw : NonNeg v.g)
+    (s : Nat) (M : Int) (hfit : DijFits v.g s M) (goal : Option Nat) :
+    dijkstraG (addB M) pop v s goal = some (SP.dijkstra pop v s goal) ∧
+    dijkstraG (addW M) pop v s goal = some (SP.dijkstra pop v s goal) := by
+  have h := dijkstraG_fits hp hv hw s M hfit goal
+  exact ⟨h, dijkstraG_mono (addB_le_addW M) pop v s goal _ h⟩
+
+/-- **"no path cost exceeds max" ⇒ the bounded run is the `Int` run** (k_shortest_path, any goal): if no
+cost of a j-th cheapest walk from `s` (`1 ≤ j ≤ k`), extended by one more arc, exceeds `M` (`KspFits`;
+every sum the algorithm computes is of this form: the j-th pop of a node carries the cost of its j-th
+cheapest walk), the overflow-checked model does not abort. -/
+theorem C10_bounded_kshortest_fits (pop : Pop) (hp : IsMinPop pop) (v : View) (hvm : ViewArcsM v) (hw : NonNeg v.g)
+    (s k : Nat) (hk : 1 ≤ k) (hix : IxOk v s) (hinj : IxInj v s) (M : Int) (hfit : KspFits v.g s k M)
+    (goal : Option Nat) :
+    kShortestPathG (addB M) pop v s goal k = some (kShortestPath pop v s goal k) ∧
+    kShortestPathG (addW M) pop v s goal k = some (kShortestPath pop v s goal k) := by
+  have h := kShortestPathG_fits hp hvm hw s k hk hix hinj M hfit goal
+  exact ⟨h, kShortestPathG_mono (addB_le_addW M) pop v s goal k _ h⟩
+
+/-- `KspFits` is decided from the k-walk oracle -/
+theorem C10_kshortest_fits_check (fuel : Nat) (g : MGraph) (s k : Nat) (M : Int) (h : kspFitsB fuel g s k M = true) :
+    KspFits g s k M :=
+  kspFitsB_sound fuel g s k M h
+
+example : kspFitsB 20 exView.g 0 2 3 = true := by decide
+
+/-- … and **astar**, by a static bound: a heuristic with values in `0..H` and `#adom · totalW + H ≤ M`
+(`AstarFits`; every g-score is at most `(#adom − 1) · totalW`) never aborts the overflow-checked model.
+Any `pop`, any fuel. -/
+theorem C10_bounded_astar_fits (pop : Pop) (v : View) (hv : ViewArcs v) (hw : NonNeg v.g)
+    (s : Nat) (isGoal : Nat → Bool) (h : Nat → Int) (M : Int) (hfit : AstarFits v.g s h M) (fuel : Nat) :
+    astarG (addB M) pop v s isGoal h fuel = some (SP.astar pop v s isGoal h fuel) ∧
+    astarG (addW M) pop v s isGoal h fuel = some (SP.astar pop v s isGoal h fuel) := by
+  have hh := astarG_fits (pop := pop) hv hw s isGoal h M hfit fuel
+  exact ⟨hh, astarG_mono (addB_le_addW M) pop v s isGoal h fuel _ hh⟩
+
+/-- non-vacuity of `AstarFits`: `exView` (`#adom` = source + 5 arc targets = 6, total weight 3), `h = 0`, `M = 18` -/
+example : AstarFits exView.g 0 (fun _ => 0) 18 := ⟨0, fun _ => ⟨Int.le_refl _, Int.le_refl _⟩, by decide⟩
+
+/-- `DijFits` is decided from the certified distances -/
+theorem C10_dijkstra_fits_check (g : MGraph) (s : Nat) (M : Int) (h : dijFitsB g s M = true) : DijFits g s M :=
+  dijFitsB_sound g s M h
+
+example : dijFitsB exView.g 0 2 = true ∧ dijFitsB exView.g 0 1 = false := by decide
+
+/-- non-vacuity: the run on `exView` fits in a type with largest value 2 (the largest sum is
+0 + 2), and aborts in a type with largest value 1 -/
+example : dijkstraG (addB 2) popMin exView 0 none = some (some [(0, 0), (2, 0), (1, 1)]) ∧
+    dijkstraG (addB 1) popMin exView 0 none = none := by decide
+
+/-! ### run-time checks of the hypotheses
+
+Every hypothesis of the model theorems that concerns the concrete case is an executable Boolean the
+driver evaluates before it judges a call (`Driver/C10.lean`); here: Boolean ⇒ hypothesis.
+`C10_view_check`, `C10_view_check_multiset`, `C10_index_check` and `C10_popMin_isMinPop` above belong to
+this list. -/
+
+/-- `nonNegB` (also part of `viewOkB`): the property's precondition -/
+theorem C10_nonneg_check (g : MGraph) (h : nonNegB g = true) : NonNeg g := nonNegB_sound g h
+
+/-- `viewOkB`: arcs join nodes (needed by the totality of the reference labelling) -/
+theorem C10_arcs_check (v : View) (h : viewOkB v = true) : ArcsIn v.g := viewOkB_arcsIn v h
+
+/-- `srcOkB`: the source of the request is a node (hypothesis of `C10_index_check`) -/
+theorem C10_source_check (v : View) (s : Nat) (h : srcOkB v s = true) : s ∈ v.g.nodes := srcOkB_sound v s h
+
+/-- `admissibleB`: the heuristic table of an astar request, as the function `hFun` the model is run with,
+is admissible and non-negative -/
+theorem C10_admissible_check (g : MGraph) (hw : NonNeg g) (goals : List Nat) (hl : List (Nat × Int))
+    (h : admissibleB g goals hl = true) : Admissible g (fun x => goals.contains x) (hFun hl) :=
+  admissibleB_sound g hw goals hl h
+
+/-- … and `admissibleB` rejects only heuristics that are really inadmissible or negative: the reference
+labellings of the reversed graph it consults are always certified on a checked view -/
+theorem C10_admissible_reference_total (v : View) (h : viewOkB v = true) (t : Nat) :
+    ∃ d, certDist v.g.reverse t = some d :=
+  certDist_reverse_total v h t
+
+/-- the fuel the driver gives the k-walk oracle is above the proved bound -/
+theorem C10_oracle_fuel_check (v : View) (k : Nat) : kspFuel v k + 1 ≤ oracleFuel v k := oracleFuel_ge v k
+
+/-- **instantiation for the driver's heap discipline**: whatever is proved for every `pop` that returns
+some entry of minimal score holds for `popMin` (oldest minimal entry first), the `pop` the driver's
+mirror models run with.  `C10_driver_dijkstra`, `C10_driver_astar` and `C10_driver_k_shortest_path` below
+are the instances of all model theorems, with the Boolean run-time checks as hypotheses. -/
+theorem C10_popMin_instance {P : Pop → Prop} (h : ∀ pop, IsMinPop pop → P pop) : P popMin :=
+  h popMin popMin_isMinPop
+
+/-! ### the driver-level theorems: everything instantiated once
+
+For the concrete heap discipline `popMin` of the driver, the overflow-checked addition of the
+request's cost type, and the Boolean checks as the only hypotheses: every call the driver judges is
+inside the scope of the model theorems. -/
+
+/-- **dijkstra, as the driver runs it.**  If the per-case checks pass and the overflow-checked run does
+not abort, it returns a map `m`, `m` is also what the `Int` model and the wrapping run return, and `m`
+satisfies every clause of the property. -/
+theorem C10_driver_dijkstra (v : View) (hv : viewOkB v = true) (M : Int) (s : Nat) (goal : Option Nat)
+    (r : Option (List (Nat × Int))) (h : dijkstraG (addB M) popMin v s goal = some r) :
+    ∃ m, r = some m ∧ SP.dijkstra popMin v s goal = some m ∧ dijkstraG (addW M) popMin v s goal = some (some m) ∧
+      (∀ x y, amGet m x = some y → WalkCost v.g s x y) ∧
+      (goal = none → (∀ x y, amGet m x = some y ↔ IsShortest v.g s x y) ∧ (∀ x, amGet m x = none ↔ ¬ Reach v.g s x)) ∧
+      (∀ t, goal = some t →
+        (∀ y, amGet m t = some y ↔ IsShortest v.g s t y) ∧ (amGet m t = none ↔ ¬ Reach v.g s t) ∧
+        (∀ x y, IsShortest v.g s x y → (∀ yt, IsShortest v.g s t yt → y < yt) → amGet m x = some y)) := by
+  obtain ⟨hva, hw⟩ := C10_view_check v hv
+  obtain ⟨hr, hwrap⟩ := (C10_bounded_costs M popMin v s).1 goal r h
+  obtain ⟨m, hm⟩ := C10_dijkstra_terminates popMin popMin_isMinPop v s goal
+  have hrm : r = some m := by rw [hr, hm]
+  subst hrm
+  exact ⟨m, rfl, hm, hwrap, C10_dijkstra popMin popMin_isMinPop v hva hw s goal m hm⟩
+
+/-- **astar, as the driver runs it** (fuel `astarBound`, heuristic table checked by `admissibleB`): never
+aborts with `panic` or `fuel`; `None` iff no goal is reachable; a returned `(cost, path)` is a path from
+`s` to a goal along existing arcs whose costs sum to `cost`, the distance to the nearest goal. -/
+theorem C10_driver_astar (v : View) (hv : viewOkB v = true) (M : Int) (s : Nat) (goals : List Nat)
+    (hl : List (Nat × Int)) (hadm : admissibleB v.g goals hl = true) (r : AResult)
+    (h : astarG (addB M) popMin v s (fun x => goals.contains x) (hFun hl) (astarBound v.g s) = some r) :
+    r = SP.astar popMin v s (fun x => goals.contains x) (hFun hl) (astarBound v.g s) ∧
+    astarG (addW M) popMin v s (fun x => goals.contains x) (hFun hl) (astarBound v.g s) = some r ∧
+    (r = .notFound ↔ ∀ t ∈ goals, ¬ Reach v.g s t) ∧
+    (r = .notFound ∨ ∃ cost p, r = .found cost p) ∧
+    (∀ cost p, r = .found cost p →
+      ∃ t ∈ goals, p.head? = some s ∧ p.getLast? = some t ∧ WalkCost v.g s t cost ∧ PathCost v.g p cost ∧
+        ∀ t' ∈ goals, ∀ c', WalkCost v.g s t' c' → cost ≤ c') := by
+  obtain ⟨hva, hw⟩ := C10_view_check v hv
+  obtain ⟨hr, hwrap⟩ := (C10_bounded_costs M popMin v s).2.1 _ _ _ r h
+  have A := C10_astar popMin popMin_isMinPop v hva hw s (fun x => goals.contains x) (hFun hl) (astarBound v.g s)
+    (Nat.le_refl _)
+  have hA := C10_admissible_check v.g hw goals hl hadm
+  rw [← hr] at A
+  obtain ⟨A1, A2, A3⟩ := A
+  refine ⟨hr, hwrap, ?_, A2, ?_⟩
+  · rw [A1]
+    constructor
+    · intro hh t ht; exact hh t (by simpa using ht)
+    · intro hh t ht; exact hh t (by simpa using ht)
+  · intro cost p hcp
+    obtain ⟨t, ht, h1, h2, h3, h4⟩ := A3 cost p hcp
+    obtain ⟨hopt, hpc⟩ := h4 hA
+    refine ⟨t, by simpa using ht, h1, h2, h3, hpc, ?_⟩
+    intro t' ht' c' hc'
+    exact hopt t' c' (by simpa using ht') hc'
+
+/-- **k_shortest_path, as the driver runs it** (any goal, `k ≥ 1`; checks `viewOkB`, `viewOkMB`, `ixOkB`,
+`srcOkB`): never `panic`, never `fuel`; the returned map satisfies every clause of
+`C10_kshortest_goal`; and the k-walk oracle the judge uses is total and exact. -/
+theorem C10_driver_k_shortest_path (v : View) (hv : viewOkB v = true) (hvm : viewOkMB v = true)
+    (hix : ixOkB v = true) (M : Int) (s : Nat) (hs : srcOkB v s = true) (goal : Option Nat) (k : Nat) (hk : 1 ≤ k)
+    (r : KResult) (h : kShortestPathG (addB M) popMin v s goal k = some r) :
+    ∃ m, r = .done m ∧ kShortestPath popMin v s goal k = .done m ∧
+      kShortestPathG (addW M) popMin v s goal k = some (.done m) ∧
+      (∀ x c, amGet m x = some c → KthCost v.g s x k c) ∧
+      (goal = none → ∀ x c, amGet m x = some c ↔ KthCost v.g s x k c) ∧
+      (∀ t, goal = some t →
+        (∀ c, amGet m t = some c ↔ KthCost v.g s t k c) ∧
+        (∀ x c, KthCost v.g s x k c → (∀ ct, KthCost v.g s t k ct → c < ct) → amGet m x = some c)) ∧
+      (∃ T, kWalksF (oracleFuel v k) v.g s k = some T ∧
+        ∀ x c, (kRow T x)[k - 1]? = some c ↔ KthCost v.g s x k c) := by
+  obtain ⟨hva, hw⟩ := C10_view_check v hv
+  have hM := C10_view_check_multiset v hv hvm
+  obtain ⟨hio, hii⟩ := C10_index_check v hv hix s (C10_source_check v s hs)
+  obtain ⟨hr, hwrap⟩ := (C10_bounded_costs M popMin v s).2.2 goal k r h
+  have hsafe := C10_kshortest_safe popMin popMin_isMinPop v hva s hio goal k
+  have hterm := C10_kshortest_terminates popMin popMin_isMinPop v s goal k
+  rw [← hr] at hsafe hterm
+  cases r with
+  | fuel => exact absurd rfl hterm
+  | panic => exact absurd hsafe id
+  | done m =>
+    have G := C10_kshortest_goal popMin popMin_isMinPop v hM hw s k hk hio hii goal m hr.symm
+    obtain ⟨T, hT⟩ := C10_oracle_total v hM hw s k hk hio hii (oracleFuel v k) (C10_oracle_fuel_check v k)
+    refine ⟨m, rfl, hr.symm, hwrap, G.1, ?_, G.2.2, T, hT, C10_oracle_kth_walkF _ v.g s k T hT hk⟩
+    intro hg x c
+    exact ⟨G.1 x c, G.2.1 hg x c⟩
+
+/-! ## the hypotheses are satisfiable: a concrete non-trivial view -/
+
 example : viewOkB exView = true ∧ viewOkMB exView = true ∧ ixOkB exView = true := by decide
+example : srcOkB exView 0 = true ∧ nonNegB exView.g = true ∧ admissibleB exView.g [1] [(0, 1), (2, 1)] = true := by decide
+example : okKspF (oracleFuel exView 2) exView.g 0 (some 2) 2 [(2, 0)] = true := by decide
 example : SP.dijkstra popMin exView 0 none = some [(0, 0), (2, 0), (1, 1)] := by decide
 example : okDijAll exView.g 0 [(0, 0), (2, 0), (1, 1)] = true := by decide
 example : SP.astar popMin exView 0 (fun x => x == 1) (fun _ => 0) 100 = .found 1 [0, 2, 1] := by decide
